@@ -2,6 +2,7 @@ SPECIFICATION Spec
 CONSTANTS
   VerifyBeforeFormula = TRUE
   ResetRecurses = TRUE
+  ResetStopsAtUncached = FALSE
   PowerShortCircuitChecksExponent = TRUE
   AccumulatorAdds = TRUE
 INVARIANT Judged
